@@ -820,12 +820,13 @@ class FactoryRun:
             if spec.get("own_teardown"):
                 # the task's own context has a teardown callback that takes (shielded) virtual time: the task is not finished
                 # - for wait_finished(), all_task_handles() and the owner's teardown - before that is over
-                async def own_teardown() -> None:
+                async def own_teardown(exc: Any) -> None:
                     with anyio.CancelScope(shield=True):
                         await anyio.sleep(0.25)
-                    run.log("task-ctx-closed", tid)
+                    # (it is told what ended the task: nothing, the task's own exception, or the cancellation that was requested)
+                    run.log("task-ctx-closed", tid, got="none" if exc is None else ("cancellation" if is_cancellation(exc) else describe_exc(exc)))
 
-                ctx.add_teardown_callback(own_teardown)
+                ctx.add_teardown_callback(own_teardown, pass_exception=True)
             child = spec.get("child_spec")
             if task_status is not None and not (child is not None and tid % 2):
                 task_status.started(("sv", tid))
@@ -1221,6 +1222,13 @@ def check_factory(run: FactoryRun) -> tuple[list[dict[str, Any]], dict[str, int]
     spawn_call = {e["actor"]: e for e in ev if e["kind"] == "spawn-call"}
     # the moment a task is really over: when its own context has been torn down (tasks with a teardown callback of their own)
     closed = {e["actor"]: e for e in ev if e["kind"] == "task-ctx-closed"}
+    for tid, e in closed.items():
+        how = end[tid]["how"] if tid in end else None
+        if how in ("return", "cancelled") and not end[tid].get("in_own_teardown"):
+            inc("task_context_teardowns_told_what_ended_the_task")
+            want = "none" if how == "return" else "cancellation"
+            if e.get("got") != want:
+                bad("factory-task-context", f"task {tid} ended by {how}; the pass_exception teardown callback of its own context received {e.get('got')} (expected {want})")
     fin = {tid: closed.get(tid, e) for tid, e in end.items()}
     if closed:
         inc("tasks_with_a_slow_teardown_of_their_own", len(closed))
